@@ -223,4 +223,37 @@ example := lee_inside_law 3 (fun l => 100 - (l : ℝ)) 99.5 98.5 3 1 40 (1 / 100
 example := lee_outside_zero 3 (fun l => 100 - (l : ℝ)) 99.5 98.5 3 1 40 (1 / 1000) (fun _ => 1000) 0 0
   (Or.inr (by simp [leeBound]; norm_num))
 
+/-! ### a cloud or haze declared in an input file (`factory.create_klass`, the route of every `[[FlatMie]]`,
+`[[LeeMie]]`, `[[SimpleClouds]]` section) -/
+
+/-- **a keyword the section declares reaches the constructor with exactly the declared value; a keyword it leaves out
+    reaches it with the constructor's default** (bounds: unset).  `declaredArgs` is a function of the constructor's
+    defaults and the section alone, so nothing created earlier in the session can change the result. -/
+theorem declared_args {β : Type} (defaults config args : List (String × β)) (k : String) (d : β)
+    (hk : defaults.lookup k = some d) (h : declaredArgs defaults config = some args) :
+    (∀ v, config.lookup k = some v → args.lookup k = some v) ∧ (config.lookup k = none → args.lookup k = some d) := by
+  unfold declaredArgs at h
+  split at h
+  · cases h
+    rw [lookup_map_declared config k defaults d hk]
+    constructor
+    · intro v hv; rw [hv]; rfl
+    · intro hn; rw [hn]; rfl
+  · cases h
+
+example : declaredArgs [("flat_mix_ratio", (1 : Rat) / 10), ("flat_bottomP", -1), ("flat_topP", -1)]
+    [("flat_topP", 1 / 2), ("flat_mix_ratio", 3)] =
+    some [("flat_mix_ratio", 3), ("flat_bottomP", -1), ("flat_topP", 1 / 2)] := by decide +kernel
+
+/-- a declared keyword the constructor does not have is rejected (`KeyError`), never dropped silently -/
+theorem declared_unknown_rejected {β : Type} (defaults config : List (String × β)) (k : String) (v : β)
+    (hc : (k, v) ∈ config) (hk : defaults.lookup k = none) : declaredArgs defaults config = none := by
+  unfold declaredArgs
+  rw [if_neg]
+  intro hall
+  have := List.all_eq_true.1 hall (k, v) hc
+  simp [hk] at this
+
+example : declaredArgs [("clouds_pressure", (1000 : Rat))] [("cloud_pressure", 5)] = none := by decide +kernel
+
 end Taurex.C19
